@@ -27,8 +27,7 @@ func init() {
 }
 
 var c03Table = map[string]string{
-	"(*rt/middleware.untypedParamBinder).readValue: values.GetOK(φ)#0[(len(values.GetOK(φ)#0)-1)]": "Gettable contract: hasValue (third result) is true only with a non-empty value slice; the in-repo implementations Values.GetOK and RouteParams.GetOK establish it (R03.8 checks them)",
-	"rt.ReadSingleValue: values.GetOK(name)#0[(len(values.GetOK(name)#0)-1)]":                             "same Gettable contract (hasValue implies a non-empty slice)",
+	"_.GetOK(_)#0[(len(_.GetOK(_)#0)-1)]": "Gettable contract: hasValue (third result) is true only with a non-empty value slice; the in-repo implementations Values.GetOK and RouteParams.GetOK establish it (R03.8 checks them)",
 }
 
 // reflect operations on default-derived values that are kind-safe, with the reason (R03.4 kind table).
@@ -370,16 +369,33 @@ func runC03(c *Ctx) {
 		}},
 	}
 	seenLoc := map[string]int{}
-	for _, ci := range callsIn(pb, "(*rt/middleware.untypedParamBinder).readValue") {
+	// per calling context: a helper shared by the locations is examined once per call
+	for _, site := range callSitesUnder(pb, "(*rt/middleware.untypedParamBinder).readValue") {
+		ci := site.In.(ssa.CallInstruction)
 		_, a := callArgs(ci.Common())
 		matched := ""
-		for _, l := range locs {
-			if l.src(a[0]) && guardedBy(ci, nil, factEqString(isIn, l.name, true)) {
-				matched = l.name
+		var srcDesc string
+		site.at(func() {
+			src := a[0]
+			// inside a helper the source is the helper's parameter: take the argument bound in this context
+			for i := 0; i < 4; i++ {
+				if prm, isP := conv(src).(*ssa.Parameter); isP {
+					if b, ok := paramEnv[prm]; ok {
+						src = b
+						continue
+					}
+				}
+				break
 			}
-		}
+			srcDesc = describe(conv(src))
+			for _, l := range locs {
+				if l.src(src) && site.guarded(pb, factEqString(isIn, l.name, true)) {
+					matched = l.name
+				}
+			}
+		})
 		seenLoc[matched]++
-		c.obI("R03.7", ci, "location-source", matched != "", "each location reads its own source under its own case: query -> URL.Query(), header -> Header, path -> route parameters, formData -> MultipartForm.Value / PostForm (never the merged Form)", "source "+describe(conv(a[0]))+" does not belong to the location under which it is read")
+		c.obI("R03.7", ci, "location-source", matched != "", "each location reads its own source under its own case: query -> URL.Query(), header -> Header, path -> route parameters, formData -> MultipartForm.Value / PostForm (never the merged Form)", "source "+srcDesc+" does not belong to the location under which it is read")
 	}
 	for _, l := range locs {
 		c.obF("R03.7", pb, "handles-"+l.name, seenLoc[l.name] >= 1, "location "+l.name+" is handled", "")
@@ -403,7 +419,7 @@ func runC03(c *Ctx) {
 		if !guardedBy(g, nil, factEqString(vFieldLoad(simpleT, "CollectionFormat", nil), "multi", true)) {
 			continue
 		}
-		okM := guardedBy(g, nil, factBool(vOrigins(oCall(-1, "(*rt/middleware.untypedParamBinder).allowsMulti")), true))
+		okM := guardedBy(g, nil, factBool(vOrigins(oCallBase(-1, "allowsMulti")), true))
 		c.obI("R03.7", g, "multi-only-where-allowed", okM, "collection format multi is honoured only for query and formData parameters", "")
 	}
 	am := p.Fn("(*rt/middleware.untypedParamBinder).allowsMulti")
@@ -541,12 +557,18 @@ func ruleR03_4(c *Ctx) {
 		return false
 	}
 	n := 0
+	done := map[ssa.Instruction]bool{}
 	for _, fn := range fns {
 		for _, ci := range allCalls(fn) {
 			name := calleeName(ci.Common())
 			if !strings.HasPrefix(name, "(reflect.Value).") {
 				continue
 			}
+			if done[ci] {
+				continue // an instruction of a shared helper is examined once
+			}
+			done[ci] = true
+			fn := ci.Parent()
 			recv, args := callArgs(ci.Common())
 			onDefault := derived(recv)
 			argDefault := false
